@@ -129,6 +129,22 @@ def real_case(draw, max_tasks=6):
 
 
 @st.composite
+def converge_case(draw, max_tasks=6):
+    """Every task succeeds and nothing is cancelled; afterwards one output is deleted (C06 on the local pool)."""
+    from . import gen
+
+    n = draw(st.integers(2, max_tasks))
+    tasks = []
+    for i in range(n):
+        deps = draw(st.lists(st.integers(0, i - 1), max_size=2, unique=True)) if i else []
+        tasks.append({"deps": deps, "rc": 0, "sleep_ms": draw(st.sampled_from([30, 80, 150])),
+                      "out_bytes": 0, "grandchild": False})
+    return {"kind": "real", "cores": draw(st.sampled_from([1, 2, 3])), "tasks": tasks, "cancels": [],
+            "second_wave": draw(st.booleans()), "perturb": draw(st.integers(0, n - 1)),
+            "invoke": draw(gen.invoke(objs=False))}
+
+
+@st.composite
 def wide_case(draw):
     """As many independent long tasks as workers; worker counts around and above the number of CPUs of the host."""
     ncpu = os.cpu_count() or 2
@@ -387,6 +403,49 @@ def run_real(case):
                 if "Submitting target" in r3.err or after != before:
                     v("C06", "rerun-not-noop", f"everything completed, yet the second run submitted: {r3.submitting()}", backend="local")
                 labels.add("converged")
+                for n, s_ in sorted(table.items()):
+                    if s_ != "completed":
+                        v("C06", "not-completed-after-successful-run", f"every task ran successfully, yet {n} shows {s_}",
+                          backend="local", status=s_)
+                if case.get("perturb") is not None and not [x for x in viols if x[0] == "C06"]:
+                    # one output is deleted: exactly its producer and everything downstream runs again
+                    i0 = case["perturb"] % len(names)
+                    expect = {i0}
+                    grew = True
+                    while grew:
+                        grew = False
+                        for i, t in enumerate(tasks):
+                            if i not in expect and any(d in expect for d in t["deps"]):
+                                expect.add(i)
+                                grew = True
+                    os.remove(proj.path(names[i0] + ".out"))
+
+                    def starts():
+                        with open(journal) as f:
+                            c = {}
+                            for l in f.read().splitlines():
+                                if l.startswith("start "):
+                                    c[l.split()[1]] = c.get(l.split()[1], 0) + 1
+                            return c
+
+                    s0 = starts()
+                    r4 = proj.gwf(["run"])
+                    if r4.code != 0 or r4.crashed:
+                        v("C06", "run-failed", r4.brief(), backend="local")
+                    deadline = time.monotonic() + 60
+                    while time.monotonic() < deadline:
+                        rs = proj.gwf(["status"])
+                        if rs.code == 0 and not any(s_ in ("submitted", "running") for s_ in rs.status_rows().values()):
+                            break
+                        time.sleep(0.15)
+                    time.sleep(0.2)
+                    s1 = starts()
+                    got = {n for n in names if s1.get(n, 0) > s0.get(n, 0)}
+                    want = {names[i] for i in expect}
+                    if got != want:
+                        v("C06", "rerun-set", f"after deleting {names[i0]}.out the run executed {sorted(got)}, expected exactly "
+                          f"{sorted(want)}", backend="local", perturbation="delete")
+                    labels.add("perturb-delete")
             info = {"peak": peak, "started": len(start), "cancel_hit_running": "cancel-hit-running" in labels}
         finally:
             pool.stop()
